@@ -39,6 +39,20 @@ def _at(v, step):
     return v['table'][step % len(v['table'])] if isinstance(v, dict) else v
 
 
+@st.composite
+def _gpt_case(draw):
+    mp = draw(st.sampled_from([1, 1, 2]))
+    dp = draw(st.sampled_from([1, 2]))
+    blocks = draw(st.sampled_from([1, 2]))
+    kl = draw(st.one_of(st.sampled_from([1e-3, 1e-5, 0.1, None]), st.lists(st.sampled_from([1e-3, 1e-6, None, 10.0]), min_size=2, max_size=3).map(lambda t: {'table': t})))
+    return {'kind': 'gpt', 'pipe': 1, 'data': dp, 'model': mp, 'blocks': blocks, 'h': draw(st.integers(1, 4)), 'f': mp * draw(st.integers(1, 3)),
+            'bias': [[draw(st.booleans()), draw(st.booleans())] for _ in range(blocks)], 'seed': draw(st.integers(0, 999)), 'N': draw(st.integers(1, 3)),
+            'cap': draw(st.sampled_from([0, 25.0])), 'in_hook': True, 'prediv': False,
+            'hp': {'factor_update_steps': 1, 'inv_update_steps': 1, 'damping': draw(st.sampled_from([0.01, 0.1, 1.0])), 'factor_decay': 0.9,
+                   'kl_clip': kl, 'lr': draw(gens.table_or_const([0.1, 1.0, 0.0]))},
+            'steps': draw(st.integers(1, 3)), 'data_seed': draw(st.integers(0, 999)), 'schedule': draw(st.lists(st.integers(0, 63), max_size=100))}
+
+
 class C07(Prop):
     id = 'C07'
     title = 'KL clipping bounds the update and only rescales it'
@@ -50,7 +64,7 @@ class C07(Prop):
             'gradient on every rank == nu_pred*V within 5e-6 relative (one scalar for all layers and ranks), nu <= 1, nu^2 lr^2 |sum<V,D>| <= kl (1+1e-4); '
             'kl_clip=None constructs and gives exactly V (bit-identical). Non-trivial: some step has nu_pred < 0.99 with >= 2 layers, or kl None, or a zero gradient.')
     assumptions = ['V of the unclipped run is bit-identical to the clipped run\'s pre-scaling result (same operations), so only the scalar is under test',
-                   'GPT-NeoX ("every rank" under model parallelism) is covered by C11\'s differential harness']
+                   'GPT-NeoX share (one quarter of the cases): data 1-2 x model 1-2 on DeepSpeed/Megatron doubles; model >= 2 with active clipping is the open known finding F7']
     examples = {'quick': 60, 'thorough': 500}
     shards = {'quick': 4, 'thorough': 16}
     shrink_budget_s = {'quick': 30.0, 'thorough': 180.0}
@@ -58,13 +72,81 @@ class C07(Prop):
                        'thorough': ['nontrivial=True', 'kl_none=True', 'clip_active=True', 'zero_grad=True', 'multi_rank=True', 'lr_zero=True']}
 
     def strategy(self, tier):
-        return _case([1, 1, 2, 4] if tier == 'quick' else [1, 1, 2, 3, 4, 6, 8])
+        k = _case([1, 1, 2, 4] if tier == 'quick' else [1, 1, 2, 3, 4, 6, 8])
+        return st.one_of(k, k, k, _gpt_case())
 
     def summarize(self, infos):
         r = sorted(i['worst'] for i in infos if 'worst' in i)
         return {'relative_error_vs_nu_pred_V': {'p50': r[len(r) // 2], 'max': r[-1]}} if r else {}
 
     def run_case(self, case):
+        if case.get('kind') == 'gpt':
+            return self._gpt(case)
+        return self._kaisa(case)
+
+    def _gpt(self, case):
+        import copy
+        import torch
+        from vkit import gptrun
+        from vkit.ds_doubles import PipeModelDataParallelTopology
+        dp, mp = case['data'], case['model']
+        W = dp * mp
+        program = [{'op': 'train', 'seed': case['data_seed'] + t} for t in range(case['steps'])]
+        labels = {'gpt': True, 'W': W, 'multi_rank': W > 1, 'model': mp, 'data': dp}
+        unclipped = copy.deepcopy(case)
+        unclipped['hp']['kl_clip'] = 1e30
+        outs = []
+        for c in (unclipped, case):
+            res = gptrun.run_gpt(c, program, case['schedule'], False, observe=('grads_before',))
+            if res.timed_out:
+                raise RuntimeError('simulation timed out (harness)')
+            if not res.ok:
+                v = res.violations[0]
+                key = 'kl-none-rejected' if 'NoneType' in str(v) else 'protocol:' + v.kind
+                return violation(f'GPT-NeoX run with kl_clip={c["hp"]["kl_clip"]}: {v}', key, labels=labels)
+            outs.append(res.results)
+        base, clipped = outs
+        topo = PipeModelDataParallelTopology(num_pp=1, num_mp=mp, num_dp=dp)
+        worst, active, kl_none = 0.0, False, False
+        for t in range(case['steps']):
+            kl, lr = _at(case['hp']['kl_clip'], t), _at(case['hp']['lr'], t)
+            # sum over layers of <V, D>: every shard once (data-parallel replica 0), replicated row-parallel biases once
+            vg = 0.0
+            nlayers = 0
+            for rank in range(W):
+                co = topo.get_coord(rank)
+                if co.data != 0:
+                    continue
+                b = base[rank][t]
+                for n, V in b['after'].items():
+                    if n.endswith('row.bias') and co.model != 0:
+                        continue
+                    vg += (V.double() * b['before'][n].double()).sum().item()
+                    nlayers += 1
+            vg *= lr ** 2
+            nu = 1.0 if (kl is None or vg == 0.0) else min(1.0, math.sqrt(kl / abs(vg)))
+            kl_none |= kl is None
+            active |= nu < 0.99
+            for rank in range(W):
+                for n, V in base[rank][t]['after'].items():
+                    got = clipped[rank][t]['after'][n]
+                    where = f'GPT-NeoX step {t} rank {rank} {tuple(topo.get_coord(rank))} {n} (kl_clip={kl}, lr={lr}, data={dp}, model={mp})'
+                    if kl is None:
+                        if not torch.equal(got, V):
+                            return violation(f'{where}: kl_clip=None must leave the gradient unscaled', 'kl-none-scaled', labels=labels)
+                        continue
+                    exp = nu * V.double()
+                    den = exp.norm().item()
+                    err = (got.double() - exp).norm().item() / den if den > 0 else got.norm().item()
+                    worst = max(worst, err)
+                    if err > 5e-6:
+                        key = 'clip-scale-model-parallel' if mp >= 2 else 'clip-scale'
+                        return violation(f'{where}: gradient != nu_pred * V with nu_pred={nu:.6g} (relative error {err:.3e})', key, labels=labels)
+        nt = active or kl_none
+        labels.update({'nontrivial': nt, 'clip_active': active, 'kl_none': kl_none})
+        return passed(nt, labels, {'worst': worst})
+
+    def _kaisa(self, case):
         import copy
         import torch
         from vkit import kaisa, kmodel
